@@ -45,6 +45,9 @@ type project struct {
 	// TypeFile: when set, every type's text is filed under this one name (type
 	// bodies cut out of one source file) instead of under the type's own name.
 	TypeFile string `json:"typeFile,omitempty"`
+	// OptionalKeys: every schema object of the project is created with
+	// AreKeysOptionalByDefault (a property without an `optional` rule is optional).
+	OptionalKeys bool `json:"optionalKeys,omitempty"`
 }
 
 func call(sink callSink, op string, text []byte, texts map[string][]byte, f func() error) (ok bool) {
@@ -181,7 +184,11 @@ func buildProject(p *project) (*jschema.JSchema, error) {
 	if p.TypeFile == unnamedFiles {
 		rootName = ""
 	}
-	root := jschema.New(rootName, p.Root)
+	var opts []jschema.Option
+	if p.OptionalKeys {
+		opts = append(opts, func(s *jschema.JSchema) { s.AreKeysOptionalByDefault = true })
+	}
+	root := jschema.New(rootName, p.Root, opts...)
 	ruleOrder := p.RuleOrder
 	if ruleOrder == nil {
 		ruleOrder = sortedKeys(p.Enums)
@@ -210,7 +217,7 @@ func buildProject(p *project) (*jschema.JSchema, error) {
 		if p.TypeFile == unnamedFiles {
 			fn = ""
 		}
-		t := jschema.New(fn, p.Types[n])
+		t := jschema.New(fn, p.Types[n], opts...)
 		if err := addRules(t); err != nil {
 			return root, err
 		}
